@@ -202,7 +202,10 @@ PROPS = {
     "C14": {"module": "Asts.Props.C14", "runs": [rc(proj=proj_create_delete), sy(quick=5000, thorough=60000, proj=proj_sync_pods)], "rule": RC_RULE + SY_L1,
             "assumptions": ["replicas present and >= 0 (CRD)", "wfSnapshot (every pod has a phase, ordinals distinct)",
                             "pod ids are their positions in the snapshot and there are at most freshId pods (how the driver numbers pod objects; classify looks pods up by id)",]},
-    "C15": {"module": "Asts.Props.C15", "runs": [rc(proj=proj_panic), sy(quick=6000, proj=proj_panic)], "rule": RC_RULE + " || " + SY_RULE,
+    "C15": {"module": "Asts.Props.C15", "runs": [rc(proj=proj_panic), sy(quick=6000, proj=proj_panic),
+                                                 # pod construction and the pod control over real strings (duplicate claim template names, odd set names, huge ordinals)
+                                                 {"engine": "podcontrol", "quick": 10000, "thorough": 100000, "proj": (lambda c, o: "panic" if "panic" in str(o) else ""), "clauses": ["C15."]}],
+            "rule": RC_RULE + " || " + SY_RULE,
             "assumptions": ["replicas present (CRD: required; the CRD facts of Gen/Crd.lean are re-checked by `decide` on every run)",
                             "no bound on pod ordinals or on replicas + |slots| any more: the sentinel hypothesis the proof had forced was run on the real code, which panicked (one unhealthy pod at ordinal 2147483647), and the scan was repaired (fix 53b1b2a)",
                             "memory exhaustion (a replica count near 2^31 makes the controller allocate a slice of that size) is a runtime limit, not a panic of the modelled logic"]},
